@@ -220,6 +220,30 @@ def gen(tier, rng):
                 R = sorted(set(R))
             rd, kt, inv = rng.choice(CONFIGS)
             yield {'kind': kind, 'left': rng.randint(0, 1), 'L': L, 'R': R, 'inv': inv, 'cs': cs, 'rd': rd, 'kt': kt}
+    # scaled cases: chunk sizes of several tens and runs longer than 32 (beyond the exhaustive scope; cheap for in-memory keys)
+    for _ in range(12000 if tier == 'quick' else 120000):
+        cs = rng.choice([rng.randint(17, 40), rng.randint(41, 80), 33, 34, 35, 36, 48, 49, 64, 65])
+        kind = rng.choice(KINDS)
+
+        def sside(unique):
+            target = rng.choice([rng.randint(0, 3 * cs), cs + 1, cs + 2, 2 * cs, 2 * cs + 3])
+            xs, key = [], 0
+            while len(xs) < target:
+                key += rng.choice([1, 1, 2, 5])
+                run = 1 if unique else rng.choice([1, 1, 2, 3, rng.randint(30, 46), cs - 1, cs - 2, max(1, cs - rng.randint(1, 12))])
+                xs.extend([key] * max(1, run))
+            return xs
+        L = sside(kind in ('lu', 'bu'))
+        R = sside(kind in ('ru', 'bu'))
+        if rng.random() < 0.5 and R:
+            # make the other side share the keys of the long runs (so that matches exist on both sides of a chunk end)
+            keys = sorted(set(L))
+            R = sorted(set(rng.sample(keys, min(len(keys), rng.randint(1, 8))))) if kind in ('ru', 'bu') else \
+                sorted(x for x in keys for _ in range(rng.choice([1, 1, 2])))[:3 * cs]
+        rd, kt, inv = rng.choice(CONFIGS)
+        if kt == 'S':
+            kt = 'int32'          # fixed-string keys are rendered with two digits: keep the long cases numeric
+        yield {'kind': kind, 'left': rng.randint(0, 1), 'L': L, 'R': R, 'inv': inv, 'cs': cs, 'rd': rd, 'kt': kt}
     # structured random longer cases with runs planted around chunk boundaries
     for _ in range(3000 if tier == 'quick' else 40000):
         cs = rng.randint(2, 9)
